@@ -2,6 +2,7 @@ package checks
 
 import (
 	"fmt"
+	"strings"
 	"testing"
 
 	"pgregory.net/rapid"
@@ -18,14 +19,25 @@ type c03Case struct {
 	Batch  int        `json:"batch"`
 	Batch2 int        `json:"batch2"`
 	Query  string     `json:"query"`
+	// Raw: statement text for shapes outside the generating AST (templates
+	// over dynamically typed JSON members); Stmt is nil then
+	Raw string `json:"raw,omitempty"`
 }
 
 func init() { registerReplay("c03", func(c *c03Case) string { m, _, _ := checkC03(c); return m }) }
 
 func checkC03(c *c03Case) (msg string, nontrivial bool, labels []string) {
-	q := c.Stmt.Render()
+	var q string
+	var keyIdx []int
+	isSelect := true
+	if c.Raw != "" {
+		q = c.Raw
+	} else {
+		q = c.Stmt.Render()
+		keyIdx = orderKeyIdx(c.Stmt)
+		isSelect = c.Stmt.Kind == "select"
+	}
 	c.Query = q
-	keyIdx := orderKeyIdx(c.Stmt)
 	var firstRows [][]any
 	var firstCfg lib.Cfg
 	haveFirst := false
@@ -76,7 +88,7 @@ func checkC03(c *c03Case) (msg string, nontrivial bool, labels []string) {
 		if !sameUpToTies(row.Rows, bat.Rows, keyIdx) {
 			return fmt.Sprintf("query %q over %v:\n  row iteration   %s\n  batch [%s] %s", q, c.Pairs, lib.ShowRows(row.Rows), cfg, lib.ShowRows(bat.Rows)), false, labels
 		}
-		if c.Stmt.Kind != "select" {
+		if !isSelect {
 			if fmt.Sprint(rowStore.Pairs()) != fmt.Sprint(bStore.Pairs()) {
 				return fmt.Sprintf("statement %q over %v leaves different stores: row iteration %v, batch [%s] %v", q, c.Pairs, rowStore.Pairs(), cfg, bStore.Pairs()), false, labels
 			}
@@ -90,6 +102,58 @@ func checkC03(c *c03Case) (msg string, nontrivial bool, labels []string) {
 		}
 	}
 	return "", nontrivial, labels
+}
+
+// TestC03Dynamic: the operator families and functions over dynamically typed
+// JSON members (statically text, at run time a number, a text, a Boolean,
+// null, an array or an object - the same or another kind on the next pair):
+// the row form and the batch form of every operator decide on the kind they
+// find, and must agree whenever the batch form answers.
+func TestC03Dynamic(t *testing.T) {
+	lib.Stats.Exhaustive = true
+	idx := 0
+	doc := func(m, n string) string {
+		parts := []string{}
+		if m != "" {
+			parts = append(parts, `"m": `+m)
+		}
+		if n != "" {
+			parts = append(parts, `"n": `+n)
+		}
+		return "{" + strings.Join(parts, ", ") + "}"
+	}
+	for _, tpl := range c06Templates {
+		for a, sa := range c06Shapes {
+			for b, sb := range c06Shapes {
+				idx++
+				if !lib.Mine(idx) {
+					continue
+				}
+				// runs of one kind (both members of kind a, then of kind b), so
+				// that the batch form gets through a whole chunk
+				pairs := []lib.Pair{
+					{K: "a", V: doc(sa.text, sa.text)}, {K: "b", V: doc(sa.text, sa.text)},
+					{K: "c", V: doc(sb.text, sb.text)}, {K: "d", V: doc(sb.text, sa.text)},
+				}
+				if (a+b)%3 == 0 {
+					pairs = pairs[:2]
+				}
+				c := &c03Case{Raw: tpl, Pairs: pairs, Batch: []int{1, 2, 3, 32}[idx%4], Batch2: 2}
+				lib.Journal("C03", "c03", c)
+				msg, _, labels := checkC03(c)
+				agree := true
+				for _, l := range labels {
+					if l == "row-ok-batch-error" || l == "both-error" {
+						agree = false
+					}
+				}
+				lib.Stats.EnumCase(agree, append(labels, "dynamic-json", "first-kind="+sa.name), func() any { return map[string]any{"query": tpl, "pairs": pairs} })
+				if msg != "" {
+					fail(t, "C03", "c03", msg, c)
+				}
+			}
+		}
+	}
 }
 
 func stmtLabels(st *lib.Stmt) []string {
